@@ -1,6 +1,7 @@
 (* C16 — the Python decoder detects truncated input.  Statements only. *)
 From Coq Require Import String ZArith List Bool.
 From FcpV Require Import Base.Bits Schema.Types Wire.Wire Wire.WireProofs Py.PySerde Py.PySerdeProofs.
+From FcpV Require Import Py.BufferLib gen.PyBuffer Py.BufferProofs.
 Import ListNotations.
 Open Scope Z_scope.
 
@@ -35,3 +36,32 @@ Example c16_nonvacuous :
     map (fun k => py_decode sc "S" (firstn k bytes)) [0;1;2;3;4;5;6]%nat
     = repeat (Some (Raise Overrun)) 7.
 Proof. eexists. split; [vm_compute; reflexivity|]. split; vm_compute; reflexivity. Qed.
+
+(* ---- the bit buffer of serde.py itself (gen/PyBuffer.v, translated from class _Buffer on every run) ---- *)
+
+(* read_word raises exactly when fewer than m bits are left, whatever the cursor and the buffer; otherwise it returns the
+   value of the next m bits and advances by m *)
+Theorem buffer_read_word_overruns_exactly_when_short :
+  forall buf a m,
+    py_read_word (mk buf (Z.of_nat a)) (Z.of_nat m) =
+    match Wire.read_word m (unread buf a) with
+    | Ok (z, rest) => POk (mk buf (Z.of_nat (a + m)), z)
+    | Raise _ => PRaise PyValueError
+    end
+    /\ (forall z rest, Wire.read_word m (unread buf a) = Ok (z, rest) -> rest = unread buf (a + m)).
+Proof. exact read_word_refines. Qed.
+Print Assumptions buffer_read_word_overruns_exactly_when_short.
+
+(* read_bytes(k) (strings, f32, f64) raises exactly when fewer than 8k bits are left *)
+Theorem buffer_read_bytes_overruns_exactly_when_short :
+  forall buf a k, (a <= 8 * length buf)%nat ->
+    py_read_bytes (mk buf (Z.of_nat a)) (Z.of_nat k) =
+    if Nat.leb (a + 8 * k) (8 * length buf)
+    then POk (mk buf (Z.of_nat (a + 8 * k)), map (byte_at buf a) (seq 0 k))
+    else PRaise PyValueError.
+Proof. exact read_bytes_refines. Qed.
+Print Assumptions buffer_read_bytes_overruns_exactly_when_short.
+
+Example c16_buffer_nonvacuous :
+  py_read_bytes (mk [1; 2; 3] 4) 3 = PRaise PyValueError /\ py_read_bytes (mk [1; 2; 3] 4) 2 = POk (mk [1; 2; 3] 20, [32; 48]).
+Proof. split; vm_compute; reflexivity. Qed.
